@@ -284,9 +284,9 @@ func init() {
 				ss = append(ss, fmt.Sprintf("all strings over %q of length %d..%d", s.alphabet, s.minLen, s.maxLen))
 			}
 			return map[string]any{"exhaustive_sets": ss, "structured_family_lengths": lengths,
-				"structured_family":  "periodic words for every unit of length 1..3 over 3 letters with 0 or 1 perturbed position in {0,mid,last}, Fibonacci, Thue-Morse, period-doubling prefixes (two alphabets: abc and 00/ff/80), de Bruijn B(2,1..10) B(3,1..6) B(4,1..4), all 256 byte values ascending/descending/twice",
-				"sa_prefill":         "zeros, -1, 0x7fffffff, reversed identity (all four for texts <= 8 bytes, rotating by index above)",
-				"lcp_call_modes":     "(sa,sainv), (sa,nil), (nil,nil)",
+				"structured_family":    "periodic words for every unit of length 1..3 over 3 letters with 0 or 1 perturbed position in {0,mid,last}, Fibonacci, Thue-Morse, period-doubling prefixes (two alphabets: abc and 00/ff/80), de Bruijn B(2,1..10) B(3,1..6) B(4,1..4), all 256 byte values ascending/descending/twice",
+				"sa_prefill":           "zeros, -1, 0x7fffffff, reversed identity (all four for texts <= 8 bytes, rotating by index above)",
+				"lcp_call_modes":       "(sa,sainv), (sa,nil), (nil,nil)",
 				"threshold_diagnostic": "suffix.VerifSort with (sizeThreshold,trSizeThreshold) in {(4,0),(5,3),(8,4),(3,2)} on every 8th text of length 4..12: failures are reported as DIAGNOSTIC in the samples and counted, never as VIOLATION"}
 		},
 		Rule:        "every text of the exhaustive sets and the structured family is one case; all are distinct by construction; non-trivial = every text (each exercises Sort, InvertSA and the three LCP conventions)",
